@@ -363,6 +363,55 @@ def h_compile_script(max_len):
     return h
 
 
+def h_render_output():
+    """TestCase::render_output: which of the two documented transformations are applied, for every setting of keep_crlf / strip_ansi_escaping"""
+    from mir_exec import MapBuf, SymOpt, mk_struct, new_ref
+
+    class RenderModels(Models):
+        def __init__(self, prog):
+            super().__init__()
+            for name, tag in (("newline::replace_crlf", 1), ("escaping::strip_colors_bytes", 2)):
+                f = prog.find(name)
+                self.overrides[f] = (lambda ctx, fname, args, tag=tag: self._tagged(ctx, args, tag))
+
+        @staticmethod
+        def _tagged(ctx, args, tag):
+            # the transformation itself is another claim (replace_crlf) or another crate (strip-ansi-escapes): here it only leaves its mark
+            items = list(as_items(args[0])) + [SInt(tag, "u8")]
+            ctx.notes.setdefault("applied", []).append(tag)
+            return Agg("Cow", "Owned", [VecBuf(items, "u8")]) if tag == 1 else ok(VecBuf(items, "u8"))
+
+    def setup(ctx):
+        cfg = mk_struct("TestCaseConfig", detached=none(), environment=MapBuf([]), keep_crlf=SymOpt(ctx.sym_bool("crlf_set"), ctx.sym_bool("crlf")),
+                        output_stream=none(), skip_document_code=none(), strip_ansi_escaping=SymOpt(ctx.sym_bool("ansi_set"), ctx.sym_bool("ansi")),
+                        timeout=none(), wait=none())
+        tc = mk_struct("TestCase", title=StringBuf([]), shell_expression=StringBuf([]), expectations=VecBuf([]), exit_code=none(),
+                       line_number=mk_int(1, "usize"), config=cfg)
+        ctx.notes["cfg"] = cfg
+        return [new_ref(tc), Slice([SInt(ord("x"), "u8")], "u8")]
+
+    def post(ctx, args, kind, value):
+        if kind != "return" or value.variant != "Ok":
+            return False
+        from mir_models import to_symopt
+        out = [b.v for b in as_items(deref(value.fields[0]).fields[0] if isinstance(deref(value.fields[0]), Agg) else value.fields[0])]
+        crlf = to_symopt(field_of(ctx.notes["cfg"], "keep_crlf"))
+        ansi = to_symopt(field_of(ctx.notes["cfg"], "strip_ansi_escaping"))
+        keep = z3.And(crlf.present.z(), crlf.fields[0].z())
+        strip = z3.And(ansi.present.z(), ansi.fields[0].z())
+        conds = []
+        for got_keep in (True, False):
+            for got_strip in (True, False):
+                want = [ord("x")] + ([] if got_keep else [1]) + ([2] if got_strip else [])
+                if out == want:
+                    return z3.And(keep if got_keep else z3.Not(keep), strip if got_strip else z3.Not(strip))
+        return False
+    h = e2.Harness("render_output_transformations", "TestCase::render_output", [("all settings of keep_crlf / strip_ansi_escaping", setup)], post, native=None, judge=None,
+                   describe="render_output applies CR LF → LF unless keep_crlf is true, then ANSI stripping iff strip_ansi_escaping is true, and nothing else",
+                   bound="keep_crlf, strip_ansi_escaping ∈ {unset, false, true}; the two transformations are marks (replace_crlf is decided separately)")
+    return h, RenderModels
+
+
 def replay_compile_script(rep, h, res):
     import subprocess as sp
     for model, r in res.raw_witnesses[:6]:
@@ -449,6 +498,30 @@ def run(pid, tier):
                       % (fake, nv), {"kind": "eval", "fn": "iterate_divided_output", "args": [list(fake)], "native": [nk, nv], "harness": "divider_lookalike"})
     rep.subclaim(name="divider_lookalike", engine="native replay of a concrete instance (the function has no salt parameter to make symbolic)",
                  bound="one payload line `~~~~~~~~EXECDIVIDER::OTHER::0::9`", what="a look-alike divider with a foreign salt stays output", result=st)
+    # (e) which transformations render_output applies
+    hr, RM = h_render_output()
+    hr.models_cls = lambda: RM(prog)
+    resr = e2.run_harness(prog, hr)
+    if resr.witnesses:
+        # replay: every setting on a probe that holds a CR LF pair and an ANSI colour sequence
+        probe = b"a\r\n\x1b[31mb\x1b[0m\n"
+        found = False
+        for kc in (None, False, True):
+            for sa in (None, False, True):
+                nk, nv = NAT.call("render_output", [list(probe), kc, sa])
+                want = probe if kc is True else probe.replace(b"\r\n", b"\n")
+                if sa is True:
+                    want = want.replace(b"\x1b[31m", b"").replace(b"\x1b[0m", b"")
+                if nk != "return" or bytes(nv.get("Ok", [])) != want:
+                    found = True
+                    rep.violation("render-output:keep_crlf=%s:strip_ansi=%s" % (kc, sa), "render_output(%r) with keep_crlf=%s, strip_ansi_escaping=%s gives %r, documented %r"
+                                  % (probe, kc, sa, bytes(nv.get("Ok", [])) if nk == "return" else nv, want),
+                                  {"kind": "eval", "fn": "render_output", "args": [list(probe), kc, sa], "native": [nk, nv], "harness": hr.name})
+        if not found:
+            rep.mismatches.append("%s: solver witness did not reproduce natively on the probe" % hr.name)
+    e2.record(rep, hr, resr, status=("violated" if resr.witnesses else ("undecided" if resr.unsupported else "holds")))
+    for u in resr.unsupported[:2]:
+        rep.undecided.append(u)
     # (d) the Cram executor's script
     hd = h_compile_script(3 if q else 4)
     resd = e2.run_with_raw(prog, hd)
